@@ -26,6 +26,7 @@
 #include <cstdint>
 #include <iterator>
 #include <memory>
+#include <utility>
 
 ////////////////////////////////////////////////////////////////////////////////
 namespace pika::threads::detail {
@@ -102,15 +103,19 @@ namespace pika::threads::detail {
 
         while (!exit_funcs_.empty())
         {
+            // Take the callback out of the list while the lock is held: a callback that is
+            // registered (push_front) while this one runs unlocked must neither be dropped by the
+            // pop nor make this one run twice.
+            util::detail::function<void()> f = std::move(exit_funcs_.front());
+            exit_funcs_.pop_front();
+            PIKA_VERIF_POST("ec.take", this, std::distance(exit_funcs_.begin(), exit_funcs_.end()), 0);
             {
-                PIKA_VERIF_POST("ec.iter", this, std::distance(exit_funcs_.begin(), exit_funcs_.end()), 0);
                 pika::detail::unlock_guard<std::unique_lock<pika::detail::spinlock>> ul(l);
                 PIKA_VERIF_POINT("ec.window", this, 0, 0);
-                if (!exit_funcs_.front().empty()) exit_funcs_.front()();
+                if (!f.empty()) f();
                 PIKA_VERIF_POINT("ec.window", this, 1, 0);
             }
-            PIKA_VERIF_POST("ec.pop", this, std::distance(exit_funcs_.begin(), exit_funcs_.end()), 0);
-            exit_funcs_.pop_front();
+            PIKA_VERIF_POST("ec.next", this, std::distance(exit_funcs_.begin(), exit_funcs_.end()), 0);
         }
         ran_exit_funcs_ = true;
         PIKA_VERIF_POST("ec.ran", this, 0, 0);
